@@ -766,7 +766,7 @@ FAMILIES_WITH_DRIFTS = [
     "valdev-neg", "valdev-frac", "valdev-mix", "valdev-unit", "valdev-lvl6", "valdev-lvl7", "valdev-nlvl7",
     "par-d1e-9c", "par-M64", "par-M64c", "par-s0", "par-s0c", "par-s5w2", "par-s5w2c",
     "feed-cont", "feed-df", "feed-f32", "feed-f32after64", "feed-int", "feed-auto",
-    "long-default", "twin-par", "twin-long-default",
+    "long-default", "twin-par", "twin-pardev", "twin-long-default",
 ]
 # families that can never cut (that is their point): only their step counter is demanded
 FAMILIES_STATS_ONLY = ["val-tiny", "valdev-tiny", "par-nstBig", "par-wstBig", "par-sBig", "twin-ycont"]
@@ -842,6 +842,22 @@ def _extension_tasks(tier):
                     "cost": 2 ** (x["twin"] - 2) * 2,
                 }
             )
+    # ... and on L = 96 agreement histories (1^32 0^32 1^32, k <= 1): within 12 samples a forwarded period / minimum
+    # window of 1000, 64 buckets per row or delta 1e-9 cannot be told from the defaults - here they can
+    for ci, p in enumerate(TWIN_PARAMS_X):
+        out.append(
+            {
+                "system": "ADWINAccuracy",
+                "cfg": {"id": "twinxdev%d" % ci, "params": p, "fam": "twin-pardev"},
+                "mode": "dev",
+                "default": [1] * 32 + [0] * 32 + [1] * 32,
+                "menu": [0, 1],
+                "k": 1,
+                "label": "ADWINAccuracy|twin-pardev|twinxdev%d|L96|k1" % ci,
+                "cost": 96 * 96,
+                "validate_every": 97,
+            }
+        )
     for ci in (1, 4):
         out.append(
             {
@@ -955,6 +971,22 @@ def describe(tier):
             "nonint_suffix_depth": {"{0,1}": d["suffix_b"], "{0,1,5}": d["suffix_t"]},
             "twin_depth": d["twin"],
             "twin_parameter_sets": TWIN_PARAMS,
+            "round3_families": {
+                "value_alphabets": {k: VALUE_ALPHABETS[k] for k in sorted(VALUE_ALPHABETS)},
+                "named_parameter_sets": PCFG,
+                "val": "dfs depth %d over each of %s x (hot1, hot2, hot3)" % (XDEPTH[tier]["val"], VAL_ALPHAS),
+                "valdev": "L=96 staircase lo^32 mid^32 hi^32, k<=1, each of %s under hot0; mix/unit/lvl6/nlvl7 also under "
+                "hot4 (conservative bound)%s" % (VAL_ALPHAS + ["unit"], "; k<=2 for mix and lvl7 under hot1" if tier == "thorough" else ""),
+                "par": "each of %s: dfs {0,1} depth %d and {0,1,5} depth %d; L=96 k<=1 staircases / blocks for the sets "
+                "that can cut" % (PAR_SETS, XDEPTH[tier]["par_b"], XDEPTH[tier]["par_t"]),
+                "feed": {"containers_and_dtypes": FEEDS, "dfs_depth": XDEPTH[tier]["feed"], "dev": "L=96 staircase, k<=1",
+                         "narrow_integer_dfs_depth": XDEPTH[tier]["narrow"]},
+                "long": "ADWIN() with default parameters, L=192 (lo^64 mid^64 hi^64 over {0,1,5} and {0.05,0.5,0.95}; "
+                "0^64 1^64 0^64), k<=1",
+                "twin": {"extra_parameter_sets": TWIN_PARAMS_X, "depth": XDEPTH[tier]["twin"], "dev": "1^32 0^32 1^32, k<=1",
+                         "label_containers": YFEEDS, "label_container_depth": XDEPTH[tier]["ytwin"],
+                         "default_parameters": "L=192 (1^64 0^64 1^64), k<=1, plain and container-rotated labels"},
+            },
         },
         "explanation": "states = tree nodes; traces_validated_against_impl = maximal histories on which the real "
         "detector and the model (or the twin) were compared after every update",
@@ -966,7 +998,15 @@ def describe(tier):
             "an epsilon comparison within relative 1e-9 is numerically undecidable and follows the implementation "
             "(near_tie_steered); integer guards are enforced exactly",
             "mean/variance are compared with relative 1e-9 and absolute 1e-11 (data magnitude <= 5; measured rounding noise of the one-pass variance <= 1.5e-14)",
-            "values outside {0,1,5}, windows longer than 96 samples and more than 2 deviations from the long "
-            "default histories are not covered",
+            "legacy families: values {0,1,5}; windows up to 96 samples; <= 2 deviations from the long default histories",
+            "round-3 families: the value alphabets listed under bounds (3 symbols each), windows up to 192 samples, "
+            "k <= 1; their tolerances scale with the data (mean: abs 1e-12*S, variance: abs 1e-12*S*R, decisions within "
+            "max(1e-9, 1e-12*S/R) undecidable; S = max|x|, R = spread; float32-typed streams: relative 4*L*2^-23, decisions "
+            "within 1e-4 undecidable, because the detector's running sums keep the dtype of the input)",
+            "every number of a value alphabet is handed to the model as the exact rational the detector receives "
+            "(float32 / integer kinds: the value after conversion to that dtype)",
+            "delta = 0 (accepted by the constructor, division by zero in the bound), float16 and boolean inputs, and "
+            "k >= 2 on the L=192 histories are not explored",
+            "the deviation-free history of an L=192 family is executed once per third of the deviation positions",
         ],
     }
